@@ -164,10 +164,13 @@ func ruleC09(c *Ctx) []*report.Result {
 				case f != nil && strings.HasSuffix(n, ".restore"):
 				case isBuiltinCall(ci, "len"):
 				default:
-					if _, isDefer := ci.(*ssa.Defer); isDefer {
-						continue
+					// helper calls that cannot write are irrelevant; a second
+					// route into the writer layer is not
+					if f != nil && c.P.InModule(f) && c.reachesWriter(f) {
+						if _, isDefer := ci.(*ssa.Defer); !isDefer {
+							writes = append(writes, writerCall{call: ci, callee: n})
+						}
 					}
-					r.Fail(construct+" / unexpected call", pos, "unexpected call of "+n+" in a SafeWriter emitter", nil, "")
 				}
 			}
 			if len(writes) != 1 {
@@ -177,17 +180,45 @@ func ruleC09(c *Ctx) []*report.Result {
 			w := writes[0]
 			r.Check(w.payload != nil && stripConvAll(stripIface(w.payload)) == param, construct+" / payload is the parameter", pos, "the value written is not the method's parameter")
 			if impl.pkg == "builder" {
-				okMode := false
-				if len(setModes) == 1 {
-					if m, ok := intConst(setModes[0].Common().Args[1]); ok {
-						okMode = (sp.side == "safe" && m == 1) || (sp.side == "unsafe" && m == 0)
+				// the mode in force at the write, for every entry mode of the
+				// builder (A-fmt write events), must be the mode of the side
+				wantMode := map[string]string{"safe": "SafeEscaped", "unsafe": "UnsafeEscaped"}[sp.side]
+				evs := evByFn[fn]
+				if strings.HasSuffix(w.callee, ".Fprintf") || strings.HasSuffix(w.callee, ".Fprint") {
+					// the write happens inside rfmt.Fprint*, shared by several
+					// emitters: decide from the mode set before the call, in
+					// this function or in a one-line helper it calls
+					mode := int64(-1)
+					for _, ci := range calls {
+						if ci == w.call {
+							break
+						}
+						if m, ok := modeSetBy(ci); ok {
+							mode = m
+						}
+					}
+					okMode := (sp.side == "safe" && mode == 1) || (sp.side == "unsafe" && mode == 0)
+					r.Check(okMode, construct+" / mode of its side", pos, "the builder must switch to "+wantMode+" before formatting through "+w.callee)
+					r.Ok(construct + " side=" + sp.side + " via " + w.callee)
+					if len(w.consts) > 0 {
+						if numeric[sp.name] == nil {
+							numeric[sp.name] = map[string][]string{}
+						}
+						numeric[sp.name][impl.pkg] = append([]string{w.callee}, w.consts...)
+					}
+					continue
+				}
+				if len(evs) == 0 {
+					r.Fail(construct+" / reached", pos, "no write event of this method was reached by the analysis", nil, "")
+				}
+				for _, e := range evs {
+					if e.mode == wantMode {
+						r.Ok(construct + " writes in " + e.mode)
+					} else {
+						r.Fail(construct+" / mode of its side", e.pos, "a "+sp.side+"-side payload is written by the builder in mode "+e.mode+" (want "+wantMode+")", e.e.Chain, e.cfg())
 					}
 				}
-				r.Check(okMode, construct+" / mode of its side", pos, "the builder must switch to "+map[string]string{"safe": "SafeEscaped", "unsafe": "UnsafeEscaped"}[sp.side]+" exactly once before writing")
-				// SetMode before the write
-				if len(setModes) == 1 {
-					r.Check(instrBefore(setModes[0], w.call), construct+" / mode set before the write", pos, "SetMode must precede the write")
-				}
+				_ = setModes
 			} else {
 				r.Check(len(starts) == 1 && instrBefore(starts[0], w.call), construct+" / classification bracket", pos, "the printer must bracket the write with exactly one start*/restore pair")
 				// configurations from A-fmt
@@ -290,4 +321,35 @@ func (c *Ctx) reachesWriter(fn *ssa.Function) bool {
 		}
 	}
 	return false
+}
+
+// modeSetBy: ci is Buffer.SetMode(<const>) or a call of a one-block helper
+// whose only call is such a SetMode; returns the constant.
+func modeSetBy(ci ssa.CallInstruction) (int64, bool) {
+	f := ci.Common().StaticCallee()
+	if f == nil {
+		return 0, false
+	}
+	if f.Name() == "SetMode" && recvNamed(f) == tBuffer {
+		return intConst(ci.Common().Args[1])
+	}
+	if len(f.Blocks) != 1 {
+		return 0, false
+	}
+	var found int64
+	n := 0
+	for _, ins := range f.Blocks[0].Instrs {
+		if c2, ok := ins.(ssa.CallInstruction); ok {
+			g := c2.Common().StaticCallee()
+			if g != nil && g.Name() == "SetMode" && recvNamed(g) == tBuffer {
+				if m, ok := intConst(c2.Common().Args[1]); ok {
+					found = m
+					n++
+					continue
+				}
+			}
+			return 0, false
+		}
+	}
+	return found, n == 1
 }
